@@ -328,7 +328,8 @@ P["C09"] = dict(
 P["C12"] = dict(
     claimed=True,
     technique="static analysis: key-availability and dispatch-exhaustiveness between stack::new and stack_fwd/stack_inv",
-    decides=["R-INDEX-VALIDATION/m-signed: roll / unroll compare the signed m with |n|",
+    decides=["R-UNDERFLOW-GUARD/atomic: stack_pop / stack_roll / stack_flip take elements off the stack only after the depth was compared with the whole demand",
+             "R-INDEX-VALIDATION/m-signed: roll / unroll compare the signed m with |n|",
              "R-STACK-DUAL/swap: swap exchanges the top two elements in both directions",
              "R-EXACTLY-ONE: the sub-command count of stack::new is a sum of +1 steps from 0",
              "R-USER-I64-ARITH: roll / unroll argument arithmetic cannot overflow (an out-of-range roll ends as `roll too deep`: NaN and zero successes)",
